@@ -53,3 +53,60 @@ Definition allowed (p : prog) (dur limit tol : nat) : list outcome :=
   if dur + tol <? limit then [p_res p]
   else if limit + tol <? dur then [OTimeout]
   else [p_res p; OTimeout].
+
+(* ---------- nested limits: run_timeout(outer, lambda: run_timeout(inner, f)) ----------
+   Three threads: the caller (waits for the middle thread with the outer limit), the middle thread (the outer worker; it
+   executes the inner run_timeout and waits for the inner worker with the inner limit) and the inner worker (executes f).
+   An interrupt sent to a thread that is blocked in a timed wait or a join is pending until that wait returns.
+   fixed = false is the limiter as found: the middle thread, woken by its pending interrupt, leaves the inner call without
+   interrupting its worker (the interrupt propagates through `with pool`); fixed = true (7b08eac): it first interrupts and
+   joins the inner worker and then re-raises. *)
+Inductive ost := OWaiting | OJoining | OReturned (o : outcome).
+Inductive midst :=
+| MidWaiting (pending : bool)                       (* in the timed wait for the inner result *)
+| MidJoining (pending : bool) (reraise : bool)      (* inner worker interrupted, joining it; reraise: it was itself interrupted *)
+| MidDone | MidDead.
+Inductive nev := NTick | NExpireI | NExpireO.
+Definition nstate := (ost * midst * wst)%type.
+Definition ninit : nstate := (OWaiting, MidWaiting false, WRunning 0 false).
+
+Definition nstep (fixed : bool) (p : prog) (s : nstate) (e : nev) : nstate :=
+  match s with
+  | (OReturned _, _, _) => s
+  | (o, MidWaiting pend, WRunning k false) =>
+      match e with
+      | NTick =>
+          if p_dur p <=? k + 1
+          then (if pend then (OReturned OTimeout, MidDead, WDone)      (* woken by the result, the pending interrupt ends it *)
+                else (OReturned (p_res p), MidDone, WDone))
+          else (o, MidWaiting pend, WRunning (k + 1) false)
+      | NExpireI =>
+          if pend
+          then (if fixed then (o, MidJoining true true, WRunning k true)
+                else (OReturned OTimeout, MidDead, WRunning k false))   (* as found: the function is left running *)
+          else (o, MidJoining false false, WRunning k true)
+      | NExpireO =>
+          match o with OWaiting => (OJoining, MidWaiting true, WRunning k false) | _ => s end
+      end
+  | (o, MidJoining pend rr, WRunning k true) =>
+      match e with
+      | NTick => if pend || rr then (OReturned OTimeout, MidDead, WDead)
+                 else (OReturned OTimeout, MidDone, WDead)              (* the inner TimeoutError is the result *)
+      | NExpireI => s
+      | NExpireO => match o with OWaiting => (OJoining, MidJoining true rr, WRunning k true) | _ => s end
+      end
+  | _ => s
+  end.
+
+Definition nrun (fixed : bool) (p : prog) (sched : list nev) : nstate := fold_left (nstep fixed p) sched ninit.
+
+(* all states reachable by schedules of exactly n events (for the driver: what can be observed) *)
+Fixpoint nreach (fixed : bool) (p : prog) (n : nat) (s : nstate) : list nstate :=
+  match n with
+  | O => [s]
+  | S n' => flat_map (fun e => nreach fixed p n' (nstep fixed p s e)) [NTick; NExpireI; NExpireO]
+  end.
+Definition nleaks (s : nstate) : bool :=
+  match s with (OReturned _, _, WRunning _ _) => true | _ => false end.
+Definition nreturned (s : nstate) : option outcome :=
+  match s with (OReturned o, _, _) => Some o | _ => None end.
